@@ -99,6 +99,7 @@ var engineCatalogue = []engineInfo{
 	{"E1-ICB", "rt/vrt (scheduler, explore.go) + internal/instr", "stateless DFS over schedules of the instrumented real code under a cooperative scheduler, iterative preemption bounding + bounded environment deviations"},
 	{"E1-SK", "rt/vrt (scheduler with state-key pruning)", "the same scheduler, exhaustive without preemption bound by visited-set pruning on (shared snapshot, per-thread position and learned values)"},
 	{"E2-BFS", "harness/* (explicit-state BFS drivers), rt/vrt/manual.go", "explicit-state breadth-first search over operation sequences on the real sequential cores / the whole store in big steps; successor = replay on a fresh object + one operation; canonical state hashing"},
+	{"E4-HB", "rt/vrt/hb.go (vector clocks) + internal/instr/track.go (access probes), on the E1-ICB explorer", "happens-before race monitor evaluated on every schedule explored by the stateless model checker"},
 	{"EX-ENUM", "harness/* (exhaustive enumeration drivers), rt/vrt/vc18 (key catalogue)", "exhaustive enumeration of a finite catalogue of configurations x inputs (every ordered pair / every value), each case executed on the real code"},
 	{"E3-FAULT", "harness/* (fault enumeration drivers)", "exhaustive enumeration of truncations, bit flips, byte stamps, block permutations and secondary-store failure scripts"},
 }
